@@ -148,6 +148,7 @@ def run(tier, seed, replay):
         bindir = fb.result()
         fc.result()
     scratch = vcommon.scratch_dir("c15")
+    t0 = os.times()
     try:
         thorough = tier == "thorough"
         nruns = 8 if thorough else 3
@@ -258,6 +259,8 @@ def run(tier, seed, replay):
         rep.extra["per_backend"] = per_backend
         rep.assumptions += ["every process gets its own std RandomState keys and ASLR layout (kernel defaults), plus a different environment size and cwd depth",
                             "the Rust backend is run with the verification hooks compiled in and VERIF_WASM_IMPORTS unset in every process (same setting for all runs)"]
+        t1 = os.times()
+        rep.extra["children_cpu_s"] = round((t1.children_user - t0.children_user) + (t1.children_system - t0.children_system), 1)
         return rep
     finally:
         vcommon.rm_scratch(scratch)
